@@ -161,6 +161,16 @@ def esc_text(rng):
     return ''.join(rng.choice(parts) for _ in range(rng.choice([1, 2, 3, 4, 5, 6, 8])))
 
 
+ANSISTR_ARG_METHODS = {'__contains__', 'count', 'find', 'rfind', 'index', 'rindex', 'endswith', 'strip', 'lstrip', 'rstrip', 'removeprefix', 'removesuffix',
+                       'replace', 'split', 'rsplit', 'partition', 'rpartition'}
+
+
+class LoudStr(str):
+    """a str subclass whose str() is not its characters (like class Color(str, Enum))"""
+    def __str__(self):
+        return 'LoudStr!'
+
+
 def c10_make(clsname, t, settings):
     """the receiver of a C10 case.  '<cls>(AnsiString), source edited afterwards': the value is built FROM a mutable AnsiString
     which the caller keeps and edits in place afterwards - the built value's text is still t"""
@@ -172,6 +182,12 @@ def c10_make(clsname, t, settings):
             a.apply_formatting(settings)
         assert a.base_str == t
         return AnsiStr(a) if clsname.startswith('AnsiStr') else a
+    if clsname.endswith('(str subclass with its own __str__)'):
+        # the TEXT is the characters of the argument, whatever its __str__ says; also as operand of + and of assign_str
+        cls = AnsiStr if clsname.startswith('AnsiStr(') else AnsiString
+        half = len(t) // 2
+        s = cls(LoudStr(t[:half]), *settings) + LoudStr(t[half:])
+        return s
     if clsname in ('AnsiString', 'AnsiStr'):
         cls = AnsiStr if clsname == 'AnsiStr' else AnsiString
         s = cls(t, *settings)
@@ -205,6 +221,8 @@ def c10_run(rep, rng, tier, term):
         t = rand_text(rng) if k % 6 else esc_text(rng)
         cls = AnsiString if k % 3 else AnsiStr
         clsname = cls.__name__ if k % 7 else cls.__name__ + '(AnsiString), source edited afterwards'
+        if k % 11 == 0 and ESC not in t:
+            clsname = cls.__name__ + '(str subclass with its own __str__)'
         settings = [] if k % 2 else ['red']
         try:
             s = c10_make(clsname, t, settings)
@@ -224,7 +242,12 @@ def c10_run(rep, rng, tier, term):
             if exp is None:
                 exp = lambda name=name, args=args: getattr(t, name)(*args)
             want = call(exp)
-            got = call(lambda: getattr(s, name)(*args))
+            call_args = args
+            if name in ANSISTR_ARG_METHODS and args and type(args[0]) is str and args[0] and ESC not in args[0] and (k + len(name)) % 5 == 0:
+                # the search argument given as a (formatted) AnsiStr stands for its text: same answer as for the text itself
+                call_args = (AnsiStr(args[0], 'red') if k % 2 else AnsiStr(args[0]),) + tuple(args[1:])
+                payload['first argument given as'] = 'AnsiStr(text, red)' if k % 2 else 'AnsiStr(text)'
+            got = call(lambda: getattr(s, name)(*call_args))
             if got[0] == 'hang':
                 viol.append({'oracle': 'C10.terminates', 'case': payload, 'msg': '%s did not terminate' % name})
                 continue
@@ -258,7 +281,10 @@ def c10_replay(v, term):
     s = c10_make(c.get('class', 'AnsiString'), t, c.get('settings', []))
     for (nm, a, exp, kind) in c10_calls(random.Random(0), t):
         pass
+    if c.get('first argument given as'):
+        args = ((AnsiStr(args[0], 'red') if 'red' in c['first argument given as'] else AnsiStr(args[0])),) + tuple(args[1:])
     got = call(lambda: getattr(s, name)(*args))
+    args = tuple(c['args'])
     if name == 'center':
         want = call(lambda: format(t, '%s^%d' % (args[1], max(args[0], 0))) if args[0] > 0 else t)
     elif name == 'zfill':
@@ -540,6 +566,9 @@ def c14_run(rep, rng, tier, term):
            # the function directives are lower case only (member NAMES match in any case; rgb / color256 and their prefixes do not)
            ('BG_rgb(1,2,3)', 'ValueError'), ('Bg_rgb(1,2,3)', 'ValueError'), ('UL_colour256(200)', 'ValueError'), ('DUL_rgb(1,2,3)', 'ValueError'), ('RGB(1,2,3)', 'ValueError'),
            ('Rgb(0x010203)', 'ValueError'), ('rgb(0XFF)', 'ValueError'), ('Color256(7)', 'ValueError'), ('fg_RGB(1,2,3)', 'ValueError'), ('bg_COLOUR256(7)', 'ValueError'),
+           # names are ASCII: letters that str.upper() maps onto ASCII ones (dotless i, sharp s, long s, ligatures) do not spell a name
+           ('\u0131talic', 'ValueError'), ('cro\u00dfed_out', 'ValueError'), ('\u017flow_blink', 'ValueError'), ('fg_\ufb02oral_white', 'ValueError'),
+           ('bold;\u0131talic', 'ValueError'), ('bg_mi\ufb06y_rose', 'ValueError'),
            ('nosuchname', 'ValueError'), (-1, 'ValueError'), ('rgb(1,2)', 'ValueError'), ('rgb(zz)', 'ValueError'), ('rgb(1,2,x)', 'ValueError'),
            ('color256(g)', 'ValueError'), (1.5, 'TypeError'), (None, 'TypeError'), ([None], 'TypeError'), (0.0, 'TypeError'), ([0.0], 'TypeError'), ({}, 'TypeError'), ([{}], 'TypeError'),
            (b'', 'TypeError'), ([b''], 'TypeError'), (b'red', 'TypeError'), (['bold', None], 'TypeError'), (Positional(['bold', None]), 'TypeError'), (set(), 'TypeError'), ({'a': 1}, 'TypeError'), (['red', 2.5], 'TypeError'), ('-3', 'ValueError'),
@@ -1431,6 +1460,8 @@ def c13_run(rep, rng, tier, term):
     import copy as _copy, pickle as _pickle
     fixed_vals = [(AnsiStr('ab').apply_formatting('faint', 0, 1).apply_formatting(['red', 'blue'], 1, 2), 'faint a, red+blue b'),
                   (AnsiStr('a', '[38;2'), "AnsiStr('a', '[38;2')"), (AnsiStr('a', 'bold', 'bold'), "AnsiStr('a','bold','bold')"), (AnsiStr('a', 'bold'), "AnsiStr('a','bold')"),
+                  (AnsiStr('abcde').apply_formatting('red', 0, 3).apply_formatting('blue', 1, 5).apply_formatting('red', 2, 4), 'red[0,3) blue[1,5) red[2,4)'),
+                  (AnsiStr('abcde').apply_formatting('red', 0, 4).apply_formatting('blue', 1, 5).apply_formatting('red', 2, 3), 'red[0,4) blue[1,5) red[2,3)'),
                   (AnsiStr('a', '[31', '[34'), "AnsiStr('a','[31','[34')"), (AnsiStr('a', '[34'), "AnsiStr('a','[34')"), (AnsiStr('a'), "AnsiStr('a')"), (AnsiStr(''), "AnsiStr('')")]
     pool = fixed_vals + [(AnsiStr(o), {'history': ops, 'object': i}) for (o, ops, i) in vals[:150 if tier == 'quick' else 4000]]
     for (x, name) in pool:
@@ -1452,6 +1483,12 @@ def c13_run(rep, rng, tier, term):
             rep.count(payload, True)
             a, b = AnsiString(x), AnsiString(y)
             want = (a == b)
+            if want:
+                # values that compare equal cannot be told apart: same per-character settings, same renderings, same hash
+                pc = lambda v: [[str(z) for z in v.ansi_settings_at(m)] for m in range(len(v.base_str))]
+                if pc(a) != pc(b) or [a.to_str(None, *f) for f in FLAGS8] != [b.to_str(None, *f) for f in FLAGS8] or hash(x) != hash(y) or str.__str__(x) != str.__str__(y):
+                    viol.append({'oracle': 'C13.eq', 'case': payload, 'msg': 'the two values compare equal but differ: %s rendered %r / %s rendered %r' % (pc(a), str(a), pc(b), str(b))})
+                    continue
             if (x == y) is not want or (x != y) is not (not want) or (a != b) is not (not want):
                 viol.append({'oracle': 'C13.eq', 'case': payload, 'msg': 'AnsiStr: == %s, != %s; the AnsiString twins: == %s, != %s (%s / %s)' % (x == y, x != y, a == b, a != b, describe(x), describe(y))})
         for other in (x.base_str, str.__str__(x), 5, None):
@@ -1737,4 +1774,43 @@ def c04_esc_run(rep, rng, tier, term):
         pieces = call(lambda: [x.base_str for x in v])
         if pieces != ('ok', list(t)):
             viol.append({'oracle': 'C04.esc', 'case': {'class': clsname, 'text': t, 'applied': [list(x) for x in spans], 'iteration': True}, 'msg': 'iteration yields %s' % (pieces,)})
+    return viol, []
+
+
+# ====================================================================== C08: copies made by the standard protocols
+def c08_copy_run(rep, rng, tier, term):
+    """copy.copy / copy.deepcopy / pickle of a value (both classes) give a value that compares equal, renders identically and is
+    INDEPENDENT of its source: editing one never changes the other (the copy() method and the constructor are history steps)"""
+    import copy as _copy, pickle as _pickle
+    viol = []
+    vals = impl.build_values(rng, 60 if tier == 'quick' else 3000, odd=False, kinds=(0, 1))
+    impl.drain_unobservable()
+    for (o, ops, i) in vals:
+        for how, mk in (('copy.copy', _copy.copy), ('copy.deepcopy', _copy.deepcopy), ('pickle', lambda v: _pickle.loads(_pickle.dumps(v)))):
+            payload = {'history': ops, 'object': i, 'copied by': how}
+            rep.count(payload, True)
+            r = call(lambda: mk(o))
+            if r[0] != 'ok' or type(r[1]) is not type(o):
+                viol.append({'oracle': 'C08.stdcopy', 'case': payload, 'msg': '%s gives %s' % (how, r[:2])})
+                continue
+            c = r[1]
+            before = value_obs(o)
+            if value_obs(c) != before or not (c == o) or (c != o):
+                viol.append({'oracle': 'C08.stdcopy', 'case': payload, 'msg': 'the copy differs from its source (== %s): %s vs %s' % (c == o, describe(c), describe(o))})
+                continue
+            if isinstance(o, AnsiString):
+                # edit the copy in place in several ways; the source must not move - and the other way round
+                c.apply_formatting('bg_blue', 0, None)
+                c += AnsiString('zz', 'red')
+                c.ljust(len(c.base_str) + 2, '.', inplace=True)
+                if value_obs(o) != before:
+                    viol.append({'oracle': 'C08.stdcopy', 'case': payload, 'msg': 'editing the copy changed its source: %s, was %s' % (describe(o), before[0:2])})
+                    continue
+                c2 = mk(o)
+                keep = value_obs(c2)
+                o2 = AnsiString(o)          # the pool object itself stays as it is for the later cases
+                src = mk(o2)
+                o2.apply_formatting('italic', 0, None); o2 += 'q'
+                if value_obs(src) != keep:
+                    viol.append({'oracle': 'C08.stdcopy', 'case': payload, 'msg': 'editing the source changed the copy'})
     return viol, []
